@@ -16,7 +16,7 @@ ASSUMPTIONS = [
 ]
 
 
-def gen_program(rng, uni, tid, length):
+def gen_program(rng, uni, tid, length, all_tids=()):
     """one thread's own event sequence, with new-thread / exec DATA+STRING pairs mixed in"""
     dn = uni.by_name['TRACE_DATA_NEWTHREAD'][0]
     de = uni.by_name['TRACE_DATA_EXEC'][0]
@@ -37,7 +37,10 @@ def gen_program(rng, uni, tid, length):
         r = rng.random()
         if r < 0.18:
             pid = rng.randint(1, 6)
-            prog.append([tid, dn, 0, [rng.randint(1000, 1005), pid, 0, rng.getrandbits(20)]])
+            # the announced thread is a fresh one or one of the threads that log in this history (incl. the announcer); the
+            # third word marks an exec copy
+            new_tid = rng.choice(list(all_tids)) if all_tids and rng.random() < 0.4 else rng.randint(1000, 1005)
+            prog.append([tid, dn, 0, [new_tid, pid, rng.choice([0, 0, 1, 1, 7]), rng.getrandbits(20)]])
             if rng.random() < 0.85:
                 for _ in range(rng.randint(0, 2)):
                     c = rng.choice(pool)
@@ -97,7 +100,7 @@ def run(ctx, model_ok):
     for s in range(nsets):
         nthreads = rng.randint(2, 4)
         tids = rng.sample([1, 2, 3, 0x100, 77, 2 ** 40 + 5], nthreads)
-        progs = [gen_program(rng, uni, tids[i], rng.choice([3, 8, 15, 25])) for i in range(nthreads)]
+        progs = [gen_program(rng, uni, tids[i], rng.choice([3, 8, 15, 25]), all_tids=tids) for i in range(nthreads)]
         # solo runs first, then random merges, then two extreme merges (sequential, round robin)
         for i in range(nthreads):
             hs.append(progs[i])
